@@ -149,6 +149,17 @@ Theorem C06_old_datafrag_panics :
 Proof. exact old_datafrag_panics. Qed.
 Print Assumptions C06_old_datafrag_panics.
 
+(* For every n: the loop of missing_seqnums costs exactly one step per sequence number of the
+   interval, the loop of irrelevant_changes_range one step and one map entry per sequence number of
+   the range.  In the code before eef2682 / c71c7f1 n came straight from the wire (witnesses
+   above); the repaired code passes at most 256. *)
+Theorem C06_loop_cost_exact : forall n s ch,
+  i64_min <= s -> s + Z.of_nat n <= i64_max ->
+  (exists l a, missing_loop n s ch = ORet l (Z.of_nat n) a)
+  /\ (exists ch', insert_range n s ch = ORet ch' (Z.of_nat n) (ENTRY * Z.of_nat n)).
+Proof. exact loop_cost_exact. Qed.
+Print Assumptions C06_loop_cost_exact.
+
 (* Known finding F7 (not repaired): the model allocates data_size bytes like the code; the case
    is in the syntactic class and fails the oracle. *)
 Theorem C06_known_datafrag_size : known_class w_f7 = true /\ ok w_f7 (run w_f7) = false.
